@@ -35,13 +35,13 @@ TRUSTED = [
 
 def matcher_field(rec, params):
     """a cut inside an f-string replacement field after its form has begun: read_fcomponent tests getc() == '}' at the end of input"""
-    return (rec["key"] == "open-not-premature" and rec["input"].get("why") == "field" and rec["observed"].startswith("Lex")
+    return (rec["key"] == "open-not-premature" and rec["input"].get("why") in ("field", "field+dotted") and rec["observed"].startswith("Lex")
             and "trailing junk in field" in rec["observed"])
 
 
 def matcher_dotted(rec, params):
     """the cut leaves a dotted identifier incomplete inside an open construct: as_identifier validates at the end of its characters"""
-    if not (rec["key"] == "open-not-premature" and rec["input"].get("why") == "dotted" and rec["observed"].startswith("Lex")):
+    if not (rec["key"] == "open-not-premature" and rec["input"].get("why") in ("dotted", "field+dotted") and rec["observed"].startswith("Lex")):
         return False
     tail = re.split(r"[\s()\[\]{};\"'`~]", rec["input"]["prefix"])[-1]
     return "." in tail and ("dotted identifier" in rec["observed"] or "Cannot access attribute" in rec["observed"])
